@@ -51,3 +51,16 @@ func init() {
 		},
 	})
 }
+
+func init() {
+	register(&propSpec{
+		ID: "C12", Level: "exploration",
+		QuickRuns: 6000, QuickSecs: 120, ThorRuns: 800000, ThorSecs: 1500,
+		Rule: "one evaluation = one seeded history of 3-14 (thorough: up to 40) operations {define classes/interfaces/functions by parsing and running a snippet, observe through a freshly parsed snippet, observe through a snippet parsed once and shared by all VMs, discard VM} over 1 base VM + 1-4 temporary VMs and a pool of 8 names with collisions, with faulted snippets (throw after definitions, syntax error after k definitions); sequential histories by one driver task or, in a quarter of the runs, one concurrent task per temporary VM interleaved by the seeded scheduler. After every step every (VM, kind, name) triple is observed through the Go lookup API and compared with the set-based model. Non-trivial = at least 3 operations; distinct = distinct hash of (schedule, step log).",
+		Assume: []string{
+			"a duplicate definition on a temporary VM may be accepted (last wins) or rejected: both are legal; where the base VM and a temporary VM define the same name either tag is accepted on that temporary VM",
+			"definitions of a faulted snippet may or may not have been registered (allowed but not required)",
+			"every temporary VM is prepared with PrepareParse, as LoadAndRun and the HTTP hot-reload handler do",
+		},
+	})
+}
